@@ -180,12 +180,54 @@ def task_order(name):
 task_order.contract_fn = "calculus.Derivate.curve"
 
 
+# --------------------------------------------------------------------------------------
+# engine B: rational curves of degree 4 .. 6 on concrete data (the symbolic runs stop at degree 3 for weighted curves)
+# --------------------------------------------------------------------------------------
+def task_rational_high():
+    fn = "calculus.Derivate.curve"
+    out = []
+    cases = {"bezier-p4": (4, (0, 0, 0)), "bezier-p5": (5, (0, 0, 0)), "bezier-p6": (6, (0, 0, 0)), "spline-p4": (4, (0, 1, 0)), "spline-p4-double": (4, (2, 0, 1))}
+    for name, (p, cells) in cases.items():
+        for variant in (0, 1):
+            U = vec(p, cells, variant)
+            n = len(U) - p - 1
+            P = [F((-1) ** i * (i * i + 1), i + 2) for i in range(n)]
+            W = [F(i % 3 + 1, 2) for i in range(n)]
+            bad = None
+            try:
+                D = calculus.Derivate(curves.Curve(list(U), P, W))
+                cuts = sorted(set(U))
+                for a, b in zip(cuts[:-1], cuts[1:]):
+                    for s_ in (1, 2, 3):
+                        u = a + (b - a) * F(s_, 4)
+                        k = spec.spec_span(list(U), p, u)
+                        N = spec.cdb(list(U), p, k, spec.Poly.X())[:n]
+                        num = sum((N[i] * (W[i] * P[i]) for i in range(n)), spec.Poly())
+                        den = sum((N[i] * W[i] for i in range(n)), spec.Poly())
+                        exp = (num.deriv()(u) * den(u) - num(u) * den.deriv()(u)) / den(u) ** 2
+                        got = D(u)
+                        if abs(F(got) - exp) > F(1, 10 ** 7) * max(1, abs(exp)):
+                            bad = "D(%s) = %s, quotient rule on the spec gives %s" % (u, got, exp)
+                            break
+                    if bad:
+                        break
+            except Exception as e:
+                bad = "%s: %s" % (type(e).__name__, str(e)[:100])
+            out.append(ob("%s:post-derivative-concrete[%s,kv=%d,rat]" % (fn, name, variant), fn, FAILED if bad else PROVED, "B", "concrete", 0.0,
+                          bad or "derivative of the weighted curve equals the quotient rule on the Cox-de Boor spec at 3 parameters per span",
+                          dict(kind="c09", p=p, cells=cells, variant=variant, rational=True) if bad else None, {"rational": True}))
+    return out + [{"_stats": dict(cases=len(out))}]
+
+
+task_rational_high.contract_fn = "calculus.Derivate.curve"
+
+
 def tasks(tier, seed):
     from ..pyvc.driver import verify
     from ..contracts import misc
     ts = [(verify, (misc.DIFFERENCE_VECTOR, "heavy", "Calculus.difference_vector", None)),
           (verify, (misc.DIFFERENCE_MATRIX, "heavy", "Calculus.difference_matrix", None))]
-    ts += [(task_order, (name,)) for name in ORDER_FAMILIES]
+    ts += [(task_order, (name,)) for name in ORDER_FAMILIES] + [(task_rational_high, ())]
     for p, cells in shapes(tier):
         for variant in ((0, 1) if tier == "quick" else (0, 1, 2)):
             ts.append((task_deriv, (p, cells, variant, False)))
